@@ -317,9 +317,9 @@ class TraceGen:
     def target(self):
         r = self.rng
         k = r.random()
-        if k < 0.45:
+        if k < 0.40:
             return ("file", self.fpath())
-        if k < 0.65:
+        if k < 0.58:
             return ("set", r.choice(DIRS), r.random() < 0.5)
         return ("dir", r.choice(DIRS))
 
@@ -365,10 +365,12 @@ class TraceGen:
                     o = ("hash", i)
                 else:
                     o = (kind, i, j)
-            elif dirs:
+            elif dirs and k >= 0.96:
                 o = (r.choice(["mkdir", "rmdir"]), r.choice(dirs))
+            elif r.random() < 0.5:
+                o = (r.choice(["valid", "valid", "hash"]), r.randrange(len(kinds)))
             else:
-                o = ("xwrite", self.fpath(), r.choice(DATA), None)
+                o = ("xwrite", self.fpath(), r.choice(DATA), r.choice(TIMES + [None]))
             ops.append(o)
         return ops
 
